@@ -49,8 +49,10 @@ SetPlain(st, k, v) ==
     IF k \in DOMAIN st.o THEN [st EXCEPT !.o[k].v = v, !.o[k].y = FALSE]
     ELSE [st EXCEPT !.aug = Put(st.aug, k, v)]
 
-\* set_option: validate, canonicalise, store; buildtype also sets debug and optimization of the same scope
-SetOpt(st, k0, raw) ==
+\* set_option: validate, canonicalise, store.  With expand (the plain API call) buildtype also sets debug and
+\* optimization of the same scope; the initialisation calls and the configure command expand buildtype per
+\* source instead (ExpandAsg) so that explicit values of the same source win
+SetOptX(st, k0, raw, expand) ==
     LET k == CanonKey(st, k0) IN
     IF ~Exists(st, k) THEN Res(st, FALSE)
     ELSE LET opt == Resolve(st, k) IN
@@ -59,19 +61,35 @@ SetOpt(st, k0, raw) ==
                   st1 == SetPlain(st, k, v)
                   dk == [k EXCEPT !.n = "debug"]
                   ok == [k EXCEPT !.n = "optimization"]
-              IN IF k.n = "buildtype" /\ v.w[1] # "custom" /\ Exists(st, dk) /\ Exists(st, ok)
+              IN IF expand /\ k.n = "buildtype" /\ v.w[1] # "custom" /\ Exists(st, dk) /\ Exists(st, ok)
                  THEN Res(SetPlain(SetPlain(st1, dk, Derived("debug", v.w[1])), ok, Derived("optimization", v.w[1])), TRUE)
                  ELSE Res(st1, TRUE)
+SetOpt(st, k0, raw) == SetOptX(st, k0, raw, TRUE)
 
 \* set_user_option: what `name=value` from a user-facing source means
 SetUser(st, k0, raw) ==
     IF k0.m = "b" /\ ~st.cross THEN Res(st, TRUE)                          \* build-machine keys are not used natively
     ELSE LET k == CanonKey(st, k0) IN
-         IF k \in DOMAIN st.o THEN SetOpt(st, k, raw)
-         ELSE IF k.s # G /\ AsGlobal(k) \in DOMAIN st.o THEN SetOpt(st, k, raw)
+         IF k \in DOMAIN st.o THEN SetOptX(st, k, raw, FALSE)
+         ELSE IF k.s # G /\ AsGlobal(k) \in DOMAIN st.o THEN SetOptX(st, k, raw, FALSE)
          ELSE IF k.n \in st.latent THEN Res([st EXCEPT !.pend = Put(st.pend, k, raw)], TRUE)
-         ELSE IF k.s = G THEN SetOpt(st, AsRoot(k), raw)                 \* `opt` may name a top-level project option
+         ELSE IF k.s = G THEN SetOptX(st, AsRoot(k), raw, FALSE)         \* `opt` may name a top-level project option
          ELSE Res(st, FALSE)
+
+\* one source's assignments with every buildtype expanded into the debug / optimization it stands for, placed
+\* before the explicit assignments of that source (which therefore win)
+BtWords == {"plain", "debug", "debugoptimized", "release", "minsize"}
+IsBtAsg(a) == a.name = "buildtype" /\ a.r.t = "str" /\ a.r.w[1] \in BtWords
+RECURSIVE DerivedAsgs(_, _)
+DerivedAsgs(lvl, i) ==
+    IF i > Len(lvl) THEN <<>>
+    ELSE (IF IsBtAsg(lvl[i])
+          THEN << [lvl[i] EXCEPT !.name = "debug", !.r = RBool(IF BtDebug(lvl[i].r.w[1]) THEN 1 ELSE 0)],
+                  [lvl[i] EXCEPT !.name = "optimization", !.r = RStr(BtOpt(lvl[i].r.w[1]))] >>
+          ELSE <<>>) \o DerivedAsgs(lvl, i + 1)
+HasBtOptions(st) == Key("debug", G, "h") \in DOMAIN st.o /\ Key("optimization", G, "h") \in DOMAIN st.o
+ExpandAsg(st, lvl) == IF HasBtOptions(st) THEN DerivedAsgs(lvl, 1) \o lvl ELSE lvl
+ExpandLv(st, lv) == [l \in 1..8 |-> ExpandAsg(st, lv[l])]
 
 \* ---- adding options -----------------------------------------------------------
 AddGlobal(st, gk, d, defraw) ==
@@ -103,16 +121,14 @@ AddProject(st, k, d, defraw, yield) ==
          IN Res([st EXCEPT !.o = Put(st.o, k, OptRec(d, Canon(d, defraw), par, par)), !.proj = st.proj \cup {k}], TRUE)
 
 \* ---- applying a list of assignments -----------------------------------------------
-\* items: sequence of [k |-> key, r |-> raw]; buildtype is processed before the values it would set
-IsBt(it) == it.k.n = "buildtype"
-BtFirst(items) == SelectSeq(items, IsBt) \o SelectSeq(items, LAMBDA it : ~IsBt(it))
+\* items: sequence of [k |-> key, r |-> raw], applied in order (later ones override earlier ones)
 
 RECURSIVE ApplyFrom(_, _, _)
 ApplyFrom(st, items, i) ==
     IF i > Len(items) THEN Res(st, TRUE)
     ELSE LET r == SetUser(st, items[i].k, items[i].r) IN
          IF r.ok THEN ApplyFrom(r.st, items, i + 1) ELSE r
-ApplyAll(st, items) == ApplyFrom(st, BtFirst(items), 1)
+ApplyAll(st, items) == ApplyFrom(st, items, 1)
 
 LevelItems(lvl, sub) == [i \in 1..Len(lvl) |-> [k |-> Key(lvl[i].name, sub, lvl[i].m), r |-> lvl[i].r]]
 
@@ -135,8 +151,9 @@ ResetDirs(st, dirs, prefix) ==
 
 NoPrefix(lvl) == SelectSeq(lvl, LAMBDA a : a.name # "prefix")
 
-InitTop(st, lv) ==
-    LET pk == Key("prefix", G, "h")
+InitTop(st, lv0) ==
+    LET lv == ExpandLv(st, lv0)
+        pk == Key("prefix", G, "h")
         pr == LastPrefix(lv)
         st0 == IF pr.t # "none" /\ pk \in DOMAIN st.o /\ pr.t = "str"
                THEN ResetDirs([st EXCEPT !.o[pk].v = VStr(pr.w[1])], PrefixDirs, pr.w[1]) ELSE st
@@ -169,8 +186,9 @@ MergedSub(st, lv, name, m) ==
 RECURSIVE SetToSeqR(_)
 SetToSeqR(S) == IF S = {} THEN <<>> ELSE LET x == CHOOSE y \in S : TRUE IN <<x>> \o SetToSeqR(S \ {x})
 
-InitSub(st, lv) ==
-    LET names == SubNames(lv) \cup {<<k.n, k.m>> : k \in DOMAIN st.psub}
+InitSub(st, lv0) ==
+    LET lv == ExpandLv(st, lv0)
+        names == SubNames(lv) \cup {<<k.n, k.m>> : k \in DOMAIN st.psub}
         todo == {nm \in names : MergedSub(st, lv, nm[1], nm[2]).t # "none" /\ Key(nm[1], "sub", nm[2]) \notin DOMAIN st.aug}
         sq == SetToSeqR(todo)
         items == [i \in 1..Len(sq) |-> [k |-> Key(sq[i][1], "sub", sq[i][2]), r |-> MergedSub(st, lv, sq[i][1], sq[i][2])]]
@@ -191,7 +209,15 @@ ConfFrom(st, D, i) ==
          ELSE IF k \notin DOMAIN st.o THEN Res(st, FALSE)
          ELSE ConfFrom([st EXCEPT !.o[k].y = st.o[k].p], D, i + 1)
 
-Configure(st, D) == LET r == ConfFrom(st, BtFirst(D), 1) IN IF r.ok THEN r ELSE Res(st, FALSE)
+\* (D items carry name/m/r like assignments plus the key k)
+ExpandD(st, D) == IF HasBtOptions(st)
+                  THEN LET bt == SelectSeq(D, LAMBDA it : it.r.t = "str" /\ it.k.n = "buildtype" /\ it.r.w[1] \in BtWords) IN
+                       [i \in 1..(2 * Len(bt)) |->
+                           IF i % 2 = 1 THEN [k |-> [bt[(i + 1) \div 2].k EXCEPT !.n = "debug"],
+                                              r |-> RBool(IF BtDebug(bt[(i + 1) \div 2].r.w[1]) THEN 1 ELSE 0)]
+                           ELSE [k |-> [bt[i \div 2].k EXCEPT !.n = "optimization"], r |-> RStr(BtOpt(bt[i \div 2].r.w[1]))]] \o D
+                  ELSE D
+Configure(st, D) == LET r == ConfFrom(st, ExpandD(st, D), 1) IN IF r.ok THEN r ELSE Res(st, FALSE)
 
 \* ---- invariants of every store state --------------------------------------------------------
 StoredValuesValid(st) ==
